@@ -43,6 +43,7 @@ type Term struct {
 	Val  *big.Int // integer constant
 	B    bool     // bool constant
 	id   int
+	qd   int // quantifier nesting depth
 	// Bound variables for quantifiers.
 	Bound []*Term
 	// Pattern terms for quantifiers (optional).
@@ -124,8 +125,42 @@ func intern(t *Term) *Term {
 	}
 	t.id = nextID
 	nextID++
+	for _, a := range t.Args {
+		if a.qd > t.qd {
+			t.qd = a.qd
+		}
+	}
+	if t.Op == "forall" || t.Op == "exists" {
+		t.qd++
+	}
 	table[k] = t
 	return t
+}
+
+// canonBound renames the bound variables of a quantifier to names determined by the nesting depth of the body, so that
+// alpha-equivalent quantified formulas are the same term.
+func canonBound(bound []*Term, body *Term, pats []*Term) ([]*Term, *Term, []*Term) {
+	m := map[*Term]*Term{}
+	nb := make([]*Term, len(bound))
+	for i, b := range bound {
+		c := Var(fmt.Sprintf("bv!%d!%d!%s", body.qd, i, Mangle(string(b.S))), b.S)
+		nb[i] = c
+		if c != b {
+			m[b] = c
+		}
+	}
+	if len(m) == 0 {
+		return bound, body, pats
+	}
+	body = Subst(body, m)
+	if len(pats) > 0 {
+		np := make([]*Term, len(pats))
+		for i, p := range pats {
+			np[i] = Subst(p, m)
+		}
+		pats = np
+	}
+	return nb, body, pats
 }
 
 // ID returns the unique id of the term.
@@ -710,6 +745,7 @@ func Forall(bound []*Term, body *Term, pats ...*Term) *Term {
 	if body.IsBoolConst() {
 		return body
 	}
+	bound, body, pats = canonBound(bound, body, pats)
 	return intern(&Term{Op: "forall", S: Bool, Args: []*Term{body}, Bound: bound, Pats: pats})
 }
 
@@ -718,6 +754,7 @@ func Exists(bound []*Term, body *Term) *Term {
 	if body.IsBoolConst() {
 		return body
 	}
+	bound, body, _ = canonBound(bound, body, nil)
 	return intern(&Term{Op: "exists", S: Bool, Args: []*Term{body}, Bound: bound})
 }
 
@@ -738,6 +775,50 @@ func subst(t *Term, m map[*Term]*Term, memo map[*Term]*Term) *Term {
 		return t
 	}
 	if r, ok := memo[t]; ok {
+		return r
+	}
+	if len(t.Bound) > 0 {
+		// bound variables shadow the map
+		shadow := false
+		for _, b := range t.Bound {
+			if _, ok := m[b]; ok {
+				shadow = true
+			}
+		}
+		if shadow {
+			m2 := make(map[*Term]*Term, len(m))
+			for k, v := range m {
+				m2[k] = v
+			}
+			for _, b := range t.Bound {
+				delete(m2, b)
+			}
+			r := t
+			if len(m2) > 0 {
+				nb := subst(t.Args[0], m2, map[*Term]*Term{})
+				if nb != t.Args[0] {
+					r = Rebuild(t, []*Term{nb})
+				}
+			}
+			memo[t] = r
+			return r
+		}
+	}
+	if t.Op == "forall" && len(t.Pats) > 0 {
+		nb := subst(t.Args[0], m, memo)
+		pats := make([]*Term, len(t.Pats))
+		same := nb == t.Args[0]
+		for i, p := range t.Pats {
+			pats[i] = subst(p, m, memo)
+			if pats[i] != p {
+				same = false
+			}
+		}
+		r := t
+		if !same {
+			r = Forall(t.Bound, nb, pats...)
+		}
+		memo[t] = r
 		return r
 	}
 	changed := false
@@ -851,47 +932,56 @@ func RegisterCtor(ctor string, sels ...string) {
 }
 
 // FreeVars collects free variables and applied function names in the terms.
+// Bound variables are globally unique (created by Fresh), so a variable is
+// either bound everywhere or free everywhere; both passes are memoised DAG walks.
 func FreeVars(ts []*Term) (vars []*Term, funs []string) {
+	boundSet := map[*Term]bool{}
 	seen := map[*Term]bool{}
-	vset := map[*Term]bool{}
-	fset := map[string]bool{}
-	var walk func(t *Term, bound map[*Term]bool)
-	walk = func(t *Term, bound map[*Term]bool) {
-		if seen[t] && len(bound) == 0 {
+	var pre func(t *Term)
+	pre = func(t *Term) {
+		if seen[t] {
 			return
 		}
-		if len(bound) == 0 {
-			seen[t] = true
+		seen[t] = true
+		for _, b := range t.Bound {
+			boundSet[b] = true
 		}
+		for _, a := range t.Args {
+			pre(a)
+		}
+		for _, a := range t.Pats {
+			pre(a)
+		}
+	}
+	for _, t := range ts {
+		pre(t)
+	}
+	vset := map[*Term]bool{}
+	fset := map[string]bool{}
+	seen2 := map[*Term]bool{}
+	var walk func(t *Term)
+	walk = func(t *Term) {
+		if seen2[t] {
+			return
+		}
+		seen2[t] = true
 		switch t.Op {
 		case "var":
-			if !bound[t] {
+			if !boundSet[t] {
 				vset[t] = true
 			}
 		case "app":
 			fset[t.Name] = true
-		case "forall", "exists":
-			nb := map[*Term]bool{}
-			for k := range bound {
-				nb[k] = true
-			}
-			for _, b := range t.Bound {
-				nb[b] = true
-			}
-			for _, a := range t.Args {
-				walk(a, nb)
-			}
-			for _, p := range t.Pats {
-				walk(p, nb)
-			}
-			return
 		}
 		for _, a := range t.Args {
-			walk(a, bound)
+			walk(a)
+		}
+		for _, a := range t.Pats {
+			walk(a)
 		}
 	}
 	for _, t := range ts {
-		walk(t, nil)
+		walk(t)
 	}
 	for v := range vset {
 		vars = append(vars, v)
@@ -947,20 +1037,25 @@ func (t *Term) short(sb *strings.Builder, budget *int, depth int) {
 func Rebase(jv *Term, body *Term) (*Term, *Term) {
 	var base *Term
 	seen := map[*Term]bool{}
+	bare := false
 	var find func(t *Term)
 	find = func(t *Term) {
-		if base != nil || seen[t] {
+		if bare || seen[t] {
 			return
 		}
 		seen[t] = true
-		if t.Op == "select" && t.Args[1] != jv {
+		if t.Op == "select" && t.Args[1] == jv && !contains(t.Args[0], jv) {
+			// the bound variable already indexes an array directly: that read is the trigger
+			bare = true
+			return
+		}
+		if base == nil && t.Op == "select" && t.Args[1] != jv {
 			l := linOf(t.Args[1])
 			if c, ok := l.atoms[jv]; ok && c.IsInt64() && c.Int64() == 1 && len(l.atoms) >= 1 {
 				delete(l.atoms, jv)
 				b := l.term()
 				if !contains(b, jv) && !contains(t.Args[0], jv) && !(b.IsConst() && b.Val.Sign() == 0) {
 					base = b
-					return
 				}
 			}
 		}
@@ -969,7 +1064,7 @@ func Rebase(jv *Term, body *Term) (*Term, *Term) {
 		}
 	}
 	find(body)
-	if base == nil {
+	if base == nil || bare {
 		return jv, body
 	}
 	a := Fresh("a!q", Int)
